@@ -147,7 +147,7 @@ class Lexer:
                 i += 1
                 continue
             # numbers
-            if c.isdigit() or (c == "." and i + 1 < n and s[i + 1].isdigit()):
+            if c in "0123456789" or (c == "." and i + 1 < n and s[i + 1] in "0123456789"):
                 m = _NUM.match(s, i)
                 txt = m.group(0)
                 # "1." followed by a word char is NUM then '.' (never produced here, but keep the lexer sane)
